@@ -122,6 +122,16 @@ static Data gen_data(Src& s) {
         if (table_wrap && x.visible) {
             x.tags.clear();
             x.tags.push_back(model::Tag{"k" + std::to_string(i % 7), "v" + std::to_string(i)});
+            // beyond 15000 objects: repeat the tag of an object about one table length back, so that the encoder refers to entries
+            // right at the far end of the 15000-entry table (index 14995..15000) or has to spell out a pair that was just evicted
+            // (no author info in these cases, so that every object stores exactly one new string and the distances are exact)
+            x.version = 1;
+            x.ts = x.cs = x.uid = 0;
+            x.user.clear();
+            if (i >= 15000 && s.chance(1, 2)) {
+                size_t back = 14990 + s.draw(14);
+                if (back <= i && d.objs[i - back].visible && !d.objs[i - back].tags.empty()) x.tags.push_back(d.objs[i - back].tags[0]);
+            }
         }
         d.objs.push_back(std::move(x));
     }
